@@ -61,6 +61,8 @@ K_READAHEAD = "write-after-readahead|(rw,any,readahead;write)"
 K_WBUFFER = "buffered-write-not-flushed|(any,buffered,write;read/tell)"
 K_HINT = "readlines-nonpositive-hint|(any,any,readlines(<=0))"
 K_CLOSED = "closed-file-op-succeeds|(any,any,close;tell/seek/flush)"
+K_CLOSED_TRUNC = "truncate-on-closed-file|(any,any,close;truncate)"
+K_APPEND_TRUNC = "append-size-stale-after-truncate|(a,any,truncate;write;tell/read)"
 
 EXCLUSIONS = {
     "truncate": K_TRUNCATE,
@@ -68,6 +70,8 @@ EXCLUSIONS = {
     "wbuffer": K_WBUFFER,
     "hint": K_HINT,
     "closed": K_CLOSED,
+    "closedtrunc": K_CLOSED_TRUNC,
+    "truncappend": K_APPEND_TRUNC,
 }
 
 
@@ -92,6 +96,8 @@ def active_exclusions():
 # --------------------------------------------------------------------------- strategies
 
 BASE_MODES = ["r", "r+", "w", "w+", "a", "a+", "wx", "w+x"]
+# '+' modes are where reads and writes interact: drawn more often
+WEIGHTED_MODES = BASE_MODES + ["r+", "r+", "r+", "w+", "w+", "a+", "a+", "r", "a"]
 BUFSIZES = [-1, 0, 1, 2, 7, 1024, 8192, 65536]
 READ_KINDS = ("read", "readline", "readlines", "next")
 WRITE_KINDS = ("write", "writelines", "wtext")
@@ -135,10 +141,10 @@ def _ops(alphabet, text_ok, modes):
         (2, st.tuples(st.just("writelines"), st.lists(small, max_size=5))),
         (6, seek),
         (5, st.tuples(st.just("tell"))),
-        (3, st.tuples(st.just("flush"))),
+        (2, st.tuples(st.just("flush"))),
         (2, st.tuples(st.just("truncate"), st.one_of(st.integers(0, 40), st.integers(0, 9000)))),
         (1, st.tuples(st.just("close"))),
-        (1, reopen),
+        (2, reopen),
     ]
     if text_ok:
         ops.append((1, st.tuples(st.just("wtext"), small)))
@@ -152,10 +158,10 @@ def _ops(alphabet, text_ok, modes):
 def case_st(draw, max_steps=40, max_init=20000):
     binary_only = draw(st.booleans())
     if binary_only:
-        modes = st.sampled_from([m + "b" for m in BASE_MODES])
+        modes = st.sampled_from([m + "b" for m in WEIGHTED_MODES])
         alphabet = BIN_ALPHABET
     else:
-        modes = st.sampled_from(BASE_MODES + [m + "b" for m in BASE_MODES])
+        modes = st.sampled_from(WEIGHTED_MODES + [m + "b" for m in WEIGHTED_MODES])
         alphabet = ASCII_ALPHABET
     small = st.lists(st.sampled_from(list(alphabet)), max_size=30).map(bytes)
 
@@ -164,18 +170,26 @@ def case_st(draw, max_steps=40, max_init=20000):
             return b""
         return (unit * (n // len(unit) + 1))[:n]
 
+    mode = draw(modes)
+    if "x" in mode and draw(st.integers(0, 3)) > 0:
+        init_st = st.none()
+    else:
+        init_st = None
     init = draw(
-        st.one_of(
-            st.none(),
+        init_st
+        if init_st is not None
+        else st.one_of(
+            st.sampled_from([None, b"", b"line1\nline2\r\nline3\n", b"no newline at the end"]),
+            small,
             small,
             st.builds(rep, small, st.integers(0, 3000)),
             st.builds(rep, small, st.integers(0, max_init)),
         )
     )
-    mode = draw(modes)
     bufsize = draw(st.sampled_from(BUFSIZES))
     pipelined = draw(st.booleans())
-    ops = draw(st.lists(_ops(alphabet, not binary_only, modes), min_size=1, max_size=max_steps))
+    nmin = draw(st.sampled_from([1, 1, 4, 8, 16, 30]))
+    ops = draw(st.lists(_ops(alphabet, not binary_only, modes), min_size=min(nmin, max_steps), max_size=max_steps))
     return {"init": init, "mode": mode, "bufsize": bufsize, "pipelined": pipelined, "ops": [list(o) for o in ops]}
 
 
@@ -211,8 +225,14 @@ def sanitise(case, excl, ctx=None):
             if ctx is not None:
                 ctx.count("dropped:truncate-on-readonly-handle")
             continue
+        if k == "truncate" and closed and "closedtrunc" in excl:
+            note("closedtrunc")
+            continue
         if k == "truncate" and "truncate" in excl:
             note("truncate")
+            continue
+        if k == "truncate" and not closed and "a" in mode and "truncappend" in excl:
+            note("truncappend")
             continue
         if closed and (k in ("tell", "seek", "flush") or (k == "writelines" and not op[1])) and "closed" in excl:
             note("closed")
@@ -399,7 +419,8 @@ class Runner:
         ctx.case(case, st_.opened_ok and nontrivial(case), classes)
         if st_.fail is not None:
             clause, bucket, detail = st_.fail
-            ctx.violation(clause, bucket, case, detail)
+            if ctx.violation(clause, bucket, case, detail) and os.environ.get("VERIF_C27_DEBUG"):
+                print("DEBUG known hit %s|%s: %s" % (clause, bucket, detail), flush=True)
 
 
 class _CaseState:
@@ -537,10 +558,12 @@ class _CaseState:
         if not remote_closed:
             if k in WRITE_KINDS and rb and rf.writable() and _payload_len(op):
                 hz = K_READAHEAD
-            elif (k in READ_KINDS or k == "tell") and wb:
+            elif (k in READ_KINDS or k in ("tell", "truncate")) and wb:
                 hz = K_WBUFFER
         elif k in ("tell", "seek", "flush") or (k == "writelines" and not op[1]):
             hz = K_CLOSED
+        elif k == "truncate":
+            hz = K_CLOSED_TRUNC
         if k == "readlines" and op[1] is not None and op[1] <= 0 and not remote_closed and rf.readable():
             hz = K_HINT
         if hz is not None and self.hazard is None:
@@ -576,9 +599,9 @@ class _CaseState:
             rr, lr = _call(rf.close), _call(lf.close)
         else:
             raise core.HarnessError("unknown op %r" % (op,))
-        if k in READ_KINDS and not isinstance(lr, _Raised) and not lf.closed and not lf.readable():
-            # CPython quirk: IOBase.readline(0) on a write-only file returns b'' without checking
-            # readability; the reference behaviour of a read on a write-only file is "raises".
+        if k in READ_KINDS and not isinstance(lr, _Raised) and (lf.closed or not lf.readable()):
+            # CPython quirk: IOBase.readline(0) on a write-only (even closed) file returns b'' without
+            # checking anything; the reference behaviour of a read on such a file is "raises".
             lr = _Raised(io.UnsupportedOperation("not readable (reference quirk normalised)"))
         self.trace.append("%s%s -> %s / %s" % (k, _short_args(op), _short(rr), _short(lr)))
         # ---- oracle -----------------------------------------------------------
@@ -610,6 +633,9 @@ class _CaseState:
                 self.hazard = K_TRUNCATE
                 self._fail("truncate", label, "after truncate(%r): served file %s, local twin %s" % (op[1], _short(a), _short(b)))
                 return
+        if k == "truncate" and not r_bad and not remote_closed and self.hazard is None and "a" in self.mode:
+            # from here on the remote's idea of the end of the file (append bookkeeping) may be stale
+            self.hazard = K_APPEND_TRUNC
         if not r_bad and ((k == "flush" and not self.pipelined) or k == "close") and not (k == "flush" and remote_closed):
             if k == "flush":
                 _call(lf.flush)
